@@ -16,7 +16,9 @@
                                    the flows recovered are exactly those whose record ends at or before the crash point
      recover_other_exception       ... and then the reader ends cleanly or with FlowReadException
      stream_incomplete / stream_unreadable
-                                   after every save hook the file on disk yields all finished flows, in order      *)
+                                   after every save hook the file on disk yields all finished flows, in order
+                                   (every `finished` event is one completion; a flow that completes twice -- response,
+                                   then error -- counts twice, with the state it had at each completion)          *)
 EXTENDS Verif
 
 MonInit == [bad |-> <<>>, wit |-> {}, written |-> <<>>, finished |-> <<>>, fkinds |-> <<>>, at |-> -1]
@@ -34,12 +36,16 @@ RecoverClause(m, ev) ==
        ELSE IF StrictPrefix(c, ev.ids) THEN <<"C37.partial_flow_returned">>
        ELSE <<"C37.recovered_wrong_flows">>
 
+\* greedy in-order matching: how many of the finished flows are found, in order, among the flows read from disk
+RECURSIVE Matched(_, _, _, _)
+Matched(f, i, ids, j) == IF i > Len(f) \/ j > Len(ids) THEN i - 1
+                         ELSE IF f[i] = ids[j] THEN Matched(f, i + 1, ids, j + 1) ELSE Matched(f, i, ids, j + 1)
+
+\* the file may hold more records (flows written unfinished when streaming was stopped), never fewer
 DiskClause(m, ev) ==
   IF ev.end = "other" THEN <<"C37.stream_unreadable", ev.exc>>
-  ELSE IF IsPrefix(m.finished, ev.ids) THEN <<>>
-  ELSE LET n == Len(m.finished)
-           missing == { i \in 1..n : i > Len(ev.ids) \/ ev.ids[i] # m.finished[i] }
-       IN <<"C37.stream_incomplete", m.fkinds[CHOOSE i \in missing : \A j \in missing : i <= j]>>
+  ELSE LET k == Matched(m.finished, 1, ev.ids, 1) IN
+       IF k = Len(m.finished) THEN <<>> ELSE <<"C37.stream_incomplete", m.fkinds[k + 1]>>
 
 Ends(m) == { m.written[i].to : i \in 1..Len(m.written) }
 
